@@ -154,6 +154,14 @@ def focus_phase(chk, relevant, signature, cfg_name, max_ops, sample, schema="pk_
             "divergence_signatures": st["divergences"], "tlc": gen["stats"]}
 
 
+def upsert_phase(chk, relevant, signature, schema="pk_idx_b", returning=False):
+    """INSERT ... ON CONFLICT DO NOTHING / DO UPDATE (USpec of MC_Relational.tla, Gen_Upsert.cfg): every explored transition
+    (thorough: one step deeper, sampled) replayed and judged like the standard phase"""
+    thorough = chk.tier == "thorough"
+    key = lambda c: (R.opname(c["hist"][-1]["op"]), c["hist"][-1]["ok"], c["hist"][-1]["n"], tuple(R.opname(h["op"]) for h in c["hist"][2:-1]), tuple(R.features(c["hist"])))
+    return focus_phase(chk, relevant, signature, "Gen_Upsert.cfg", 6 if thorough else 5, 40000 if thorough else 4000, schema=schema, key=key)
+
+
 def returning_phase(chk, relevant, signature, max_ops=3, sample=2500, with_txn=False, schema="pk"):
     """C05: the same behaviours with the LAST statement issued as INSERT / UPDATE / DELETE ... RETURNING id, a, b; the
     returned rows must be the model's `ret` (inserted rows, new images, deleted rows) and everything else as before."""
